@@ -77,7 +77,7 @@ func checkC26(r *Run) {
 	r.ReturnShape("C26-R3", "daemon/pex.Pex.AddPeers", 0,
 		ShapeCase{"$0.Config.Max <= daemon/pex.peerlist.len($0.peerlist)", "0"},
 		ShapeCase{"", "len(*)"})
-	r.RequireAtStore("C26-R3", "daemon/pex.Pex.AddPeers", "var:addrs := *[:($0.Config.Max - daemon/pex.peerlist.len@2($0.peerlist))]", 1,
+	r.RequireAtStore("C26-R3", "daemon/pex.Pex.AddPeers", "var:[]string := *[:($0.Config.Max - daemon/pex.peerlist.len@2($0.peerlist))]", 1,
 		req("capped only when a maximum is configured", "0 < $0.Config.Max"),
 		req("list not already full", "when: 0 < $0.Config.Max => daemon/pex.peerlist.len($0.peerlist) < $0.Config.Max"),
 		req("only cut when longer than the remaining capacity", "($0.Config.Max - daemon/pex.peerlist.len@2($0.peerlist)) < len(*)"))
